@@ -489,7 +489,7 @@ def py_local_renaming(text: str, r) -> tuple[list[str], dict] | None:
     letters = "abcdefghijklmnopqrstuvwxyz"
     import keyword
     for c in chosen:
-        rel = related_names(c, all_names, used, set(keyword.kwlist) | set(dir(builtins)), r) if not is_related(c, all_names) and r.random() < 0.5 else []
+        rel = related_names(c, all_names - set(chosen), used, set(keyword.kwlist) | set(dir(builtins)), r) if not is_related(c, all_names) and r.random() < 0.5 else []
         if rel:
             mapping[c] = rel[0]
             used.add(rel[0])
@@ -616,7 +616,7 @@ def ts_local_renaming(lang: str, text: str, r):
     mapping, used = {}, set(all_words)
     lower, upper = "abcdefghijklmnopqrstuvwxyz", "ABCDEFGHIJKLMNOPQRSTUVWXYZ"
     for c in chosen:
-        rel = related_names(c, all_words, used, kw, r) if not is_related(c, all_words) and r.random() < 0.5 else []
+        rel = related_names(c, all_words - set(chosen), used, kw, r) if not is_related(c, all_words) and r.random() < 0.5 else []
         if rel:
             mapping[c] = rel[0]
             used.add(rel[0])
@@ -638,6 +638,81 @@ def ts_local_renaming(lang: str, text: str, r):
     if shape(lang, new_text, inv) != shape(lang, text):
         return None
     return new_text.split("\n"), mapping
+
+
+# ------------------------------------------------------------------ the same program with constructs spread over two lines
+SPLIT_OPEN_PARENTS = {"arguments", "formal_parameters", "parameters", "array", "array_expression", "object", "field_initializer_list",
+                      "parenthesized_expression", "tuple_expression", "type_arguments", "named_imports", "use_list"}
+SPLIT_ASSIGN_PARENTS = {"variable_declarator", "assignment_expression", "let_declaration", "augmented_assignment_expression",
+                        "public_field_definition", "field_definition", "const_item", "static_item"}
+
+
+def split_sites(lang: str, text: str) -> list[tuple[str, int, int]]:
+    """(kind, byte offset where the white space between the two tokens starts, offset of the second token) for every pair of adjacent
+    tokens of ONE construct that sit on the same line and may sit on different lines: `else` | `if`, `=` | right-hand side,
+    opening bracket | first element"""
+    out = []
+    if lang == "py":
+        try:
+            toks = [t for t in tokenize.generate_tokens(io.StringIO(text).readline)]
+        except (tokenize.TokenError, IndentationError, SyntaxError):
+            return []
+        offs, acc = [0], 0
+        for l in text.split("\n"):
+            acc += len(l) + 1
+            offs.append(acc)
+        if not text.isascii():
+            return []
+        for a, b in zip(toks, toks[1:]):
+            if a.type == tokenize.OP and a.string in "([{" and a.string and b.start[0] == a.end[0] and \
+                    b.type not in (tokenize.NL, tokenize.NEWLINE, tokenize.COMMENT, tokenize.ENDMARKER) and not (b.type == tokenize.OP and b.string in ")]}"):
+                out.append(("open", offs[a.end[0] - 1] + a.end[1], offs[b.start[0] - 1] + b.start[1]))
+        return out
+    data = text.encode("utf-8")
+    tree = _ts_parser(lang).parse(data)
+    leaves, stack = [], [tree.root_node]
+    while stack:
+        n = stack.pop()
+        if n.type == "ERROR" or n.is_missing:
+            return []
+        if n.child_count == 0 or n.type in MULTI_TYPES:
+            leaves.append(n)
+            continue
+        stack.extend(reversed(n.children))
+    for a, b in zip(leaves, leaves[1:]):
+        if a.end_point[0] != b.start_point[0] or b.type in ("comment", "line_comment", "block_comment") or a.type in ("comment", "line_comment", "block_comment"):
+            continue
+        pt = a.parent.type if a.parent is not None else ""
+        if a.type == "else" and b.type == "if":
+            out.append(("else-if", a.end_byte, b.start_byte))
+        elif a.type == "=" and pt in SPLIT_ASSIGN_PARENTS:
+            out.append(("assign", a.end_byte, b.start_byte))
+        elif a.type in ("(", "[", "{") and pt in SPLIT_OPEN_PARENTS and b.type not in (")", "]", "}"):
+            out.append(("open", a.end_byte, b.start_byte))
+    return out
+
+
+def split_lines(lang: str, text: str, r, max_sites=3) -> tuple[str, list[str]] | None:
+    """the same program with up to max_sites of its split sites (every `else` | `if` first) broken over two lines; the result parses
+    to the same tree (guard) - a new base program whose new gaps the edit plans and the gap sweep then fill with blank / comment lines"""
+    sites = split_sites(lang, text)
+    if not sites:
+        return None
+    first = [x for x in sites if x[0] == "else-if"]
+    rest = [x for x in sites if x[0] != "else-if"]
+    r.shuffle(first)
+    r.shuffle(rest)
+    picked = (first + rest)[:max_sites]
+    data = bytearray(text.encode("utf-8"))
+    for kind, a, b in sorted(picked, key=lambda x: -x[1]):
+        ls = data.rfind(b"\n", 0, a) + 1
+        line = data[ls:a].decode("utf-8", "replace")
+        ind = _lead(line) + ("" if kind == "else-if" else "    ")
+        data[a:b] = ("\n" + ind).encode("utf-8")
+    new = data.decode("utf-8")
+    if shape(lang, new) != shape(lang, text):
+        return None
+    return new, sorted({k for k, _, _ in picked})
 
 
 # ------------------------------------------------------------------ the program is unchanged (oracle cross-check)
